@@ -9,9 +9,9 @@ bigint.rs statement by statement: `small_mul`, `small_add_from`, `large_add_from
 `shl_bits`, `shl_limbs`, `shl`, `leading_zeros`, `compare`, `large_quorem`, `normalize`, with the capacity checks
 of `StackVec<BIGFLOAT_LIMBS>` (`none` = `None`/failed `assert!` ⇒ panic).
 
-`compare_bytes` compares the **raw input byte** with `digit_to_char_const(rem, radix)`, which produces an
-upper-case letter for digits ≥ 10 — kept as in the Rust (a lower-case input digit therefore always compares
-`Greater`; finding, see `Props/C01Slow.lean`).
+`compare_bytes` compares **digit values** (`char_to_valid_digit_const(actual, radix)` against the quotient) since
+/repo commit 6651793; before, it compared the raw input byte with the upper-case `digit_to_char_const(rem, radix)`,
+so that a lower-case digit always compared `Greater` (found with this model, see `Props/C01Slow.lean`).
 
 Mathlib-free, executable. Tie: **C** — op `sl` on odd radices.
 -/
@@ -193,10 +193,6 @@ def largeQuoremL (x y : Limbs) : Option (Nat × Limbs) :=
       if compareL x y ≠ .lt then some (wrap64 (q + 1), normalizeL (subGo none x y 0 0))
       else some (q, x)
 
-/-- `digit_to_char_const(digit, radix)` in `u8` arithmetic -/
-def digitToChar (digit radix : Nat) : Nat :=
-  if radix ≤ 10 ∨ digit < 10 then (digit % 256 + 48) % 256 else ((digit % 256 + 65) % 256 + 256 - 10) % 256
-
 /-- outcome of one of the comparison macros -/
 inductive Cmp where
   | done (o : Ordering)          -- `return …` from `compare_bytes`
@@ -204,12 +200,13 @@ inductive Cmp where
   | panic
 deriving DecidableEq, Repr
 
-/-- `quorem`, digit, `mul_small(radix).unwrap()`, compare with the input byte -/
+/-- digit value of the input byte, `quorem`, `mul_small(radix).unwrap()`, compare -/
 def stepDigit (cap radix : Nat) (actual : Nat) (num den : Limbs) : Cmp :=
   match largeQuoremL num den with
   | none => .panic
   | some (q, num) =>
-    let expected := digitToChar (q % 2 ^ 32) radix
+    let actual := Binary.digitVal actual radix        -- `char_to_valid_digit_const(actual, radix)`
+    let expected := q % 2 ^ 32                         -- `quorem(..) as u32`
     match smallMulL cap num radix with
     | none => .panic
     | some num =>
